@@ -381,6 +381,10 @@
 ;@ghost wdb.counter (Array Str Int)
 ;@ghost wal.derivedupto (Array Str Int)
 ;@ghost wal.signedupto (Array Str Int)
+; Restore bookkeeping (C19): number of restore batches the mint answered with at least one
+; signature, and number of successful IncrementKeysetCounter calls
+;@ghost rst.sigbatches Int
+;@ghost wdb.saves Int
 
 ;@module wfees sums
 ; Input fees as the wallet computes them (wallet.feesForProofs): the active
